@@ -294,7 +294,7 @@ where
         let h = decoder.pull().map_err(Into::into)?;
         match h {
           Header::Break => break,
-          Header::Bytes(seg_len) => {
+          Header::Bytes(seg_len @ Some(_)) => {
             let seg = read_bytes(decoder, seg_len)?;
             result.extend_from_slice(&seg);
           }
@@ -329,7 +329,7 @@ where
         let h = decoder.pull().map_err(Into::into)?;
         match h {
           Header::Break => break,
-          Header::Text(seg_len) => {
+          Header::Text(seg_len @ Some(_)) => {
             let seg = read_text(decoder, seg_len)?;
             result.push_str(&seg);
           }
